@@ -14,11 +14,13 @@ import sys
 import time
 
 ROOT = os.path.dirname(os.path.dirname(os.path.abspath(__file__)))
-HARNESS = os.path.join(ROOT, "harness")
+# The registered checks always use /verif/harness (path deps on /repo). bin/mutant-run overrides these to judge a
+# seeded mutant in an isolated scratch copy without disturbing /repo or concurrently running checks.
+HARNESS = os.environ.get("VERIF_HARNESS") or os.path.join(ROOT, "harness")
 SPEC = os.path.join(ROOT, "spec")
-WORK = os.path.join(ROOT, "work")
-EVIDENCE = os.path.join(ROOT, "evidence")
-REPLAYS = os.path.join(ROOT, "replays")
+WORK = os.environ.get("VERIF_WORK") or os.path.join(ROOT, "work")
+EVIDENCE = os.environ.get("VERIF_EVIDENCE_DIR") or os.path.join(ROOT, "evidence")
+REPLAYS = os.environ.get("VERIF_REPLAYS") or os.path.join(ROOT, "replays")
 KNOWN = os.path.join(ROOT, "known-findings.txt")
 TLA_CP = "/opt/veriftools/tla/tla2tools.jar:/opt/veriftools/tla/CommunityModules-deps.jar"
 BIN_DIR = os.path.join(HARNESS, "target", "debug")
